@@ -111,6 +111,40 @@ Definition counted_dropped (c c' : counters) (len : nat) : Prop :=
   dropped_n c' = dropped_n c + 1 /\ dropped_bytes c' = dropped_bytes c + N.of_nat len /\
   same_overflow c c'.
 
+(* counted once as dropped, with the byte length, whatever the overflow counter did: a message that an
+   extraction transform of the input drops has been through the parser, which may have cut it and counted
+   the overflow *)
+Definition counted_dropped_any (c c' : counters) (len : nat) : Prop :=
+  passed_n c' = passed_n c /\ passed_bytes c' = passed_bytes c /\
+  dropped_n c' = dropped_n c + 1 /\ dropped_bytes c' = dropped_bytes c + N.of_nat len.
+
+(* what a receiver behind the parser sees of a sequence of messages: [outs] are the results for [msgs], in
+   order; delivered = a record was returned, refused = nil was returned *)
+Fixpoint delivered_n (msgs : list bytes) (outs : list (outcome (option record))) : N :=
+  match msgs, outs with
+  | _ :: ms, Ok (Some _) :: os => 1 + delivered_n ms os
+  | _ :: ms, _ :: os => delivered_n ms os
+  | _, _ => 0
+  end.
+Fixpoint delivered_bytes (msgs : list bytes) (outs : list (outcome (option record))) : N :=
+  match msgs, outs with
+  | m :: ms, Ok (Some _) :: os => N.of_nat (length m) + delivered_bytes ms os
+  | _ :: ms, _ :: os => delivered_bytes ms os
+  | _, _ => 0
+  end.
+Fixpoint refused_n (msgs : list bytes) (outs : list (outcome (option record))) : N :=
+  match msgs, outs with
+  | _ :: ms, Ok None :: os => 1 + refused_n ms os
+  | _ :: ms, _ :: os => refused_n ms os
+  | _, _ => 0
+  end.
+Fixpoint refused_bytes (msgs : list bytes) (outs : list (outcome (option record))) : N :=
+  match msgs, outs with
+  | m :: ms, Ok None :: os => N.of_nat (length m) + refused_bytes ms os
+  | _ :: ms, _ :: os => refused_bytes ms os
+  | _, _ => 0
+  end.
+
 Definition total_n (c : counters) : N := passed_n c + dropped_n c.
 Definition total_bytes (c : counters) : N := passed_bytes c + dropped_bytes c.
 
